@@ -385,6 +385,28 @@ def rule_order(P):
     return r
 
 
+def rule_commit(P):
+    """a backend's add/del that fails must leave the backend's bookkeeping as it was: the record of what the kernel is asked about (highest fd, counts, set sizes)
+    is only advanced after the fallible step (growing the sets / the kernel call) has succeeded"""
+    r = Rule("C05-commit", "K3", "backend bookkeeping fields are not written on a path that then reports failure", floor=4)
+    BACKEND = {"select.c": "selectop", "poll.c": "pollop", "epoll.c": "epollop"}
+    for f in P.all_fns:
+        rec = BACKEND.get(f.file)
+        if rec is None or not (f.name.endswith("_add") or f.name.endswith("_del")) or f.name.endswith("changelist_add") or len(f.params) != 5:
+            continue
+        fails = [x for x in f.returns() if len(x.e) > 1 and is_e(strip(x.e[1]), "int") and strip(x.e[1])[1] == -1]
+        for el, lhs, op, rhs in f.stores():
+            fl = fields_of(lhs)
+            if not fl or not fl[0].startswith(rec + "."):
+                continue
+            w = f.path_avoiding(el.pos(), lambda x: x in fails, lambda x: False) if fails else None
+            r.inst((f.name, el.n), {"fn": f.name, "site": el.where(), "store": show(el.e)[:60], "failure_return_reachable_afterwards": w.where() if w is not None else None})
+            if w is not None:
+                r.bad("K3:%s:bookkeeping-advanced-before-failure" % f.name, el.where(), f.name,
+                      "`%s` is executed on a path that then returns -1 (line %d): the backend's record no longer matches what it allocated / told the kernel although the add was refused" % (show(el.e)[:50], w.line))
+    return r
+
+
 def run(ctx, config):
     P = ctx.prog(UNITS, config)
-    return [rule_evmap(P), rule_changelist(P), rule_backends(P), rule_order(P)]
+    return [rule_evmap(P), rule_changelist(P), rule_backends(P), rule_order(P), rule_commit(P)]
